@@ -553,8 +553,13 @@ def r7(tree, rep):
             ok = ok and isinstance(v, ast.Name) and v.id in ps and not local_defs(fn, v.id)
         else:
             ok = False
-    rep.check("C19.R7", "Input._all_nameplates is replaced by each listing (assigned from record_nameplates' parameter; never merged or updated)",
-              ok and n_assign == 1, own[0].site if own else INP, key="C19.R7:_all_nameplates:replaced",
+    # ... by EVERY listing, the empty one included (the server reporting "no nameplates" retires what was on offer)
+    from ..cfg import build as _build
+    g7 = _build(fn)
+    asg7 = g7.nodes(lambda s_: isinstance(s_, ast.Assign) and any(is_self_attr(t, "_all_nameplates") for t in s_.targets))
+    ok = ok and bool(asg7) and g7.must_pass(asg7, explicit_only=True)
+    rep.check("C19.R7", "Input._all_nameplates is replaced by each listing, on every path (assigned from record_nameplates' parameter; never merged, "
+              "updated or kept)", ok and n_assign == 1, own[0].site if own else INP, key="C19.R7:_all_nameplates:replaced",
               what="nameplates of an earlier listing stay on offer after the server released them (writers: %s): a completion can name a "
                    "nameplate nobody is waiting on" % [w.brief() for w in own + foreign])
 
@@ -593,3 +598,4 @@ REWRITES = [
     Rewrite("regex-fullmatch", NP, "    if not re.search(r'^\\d+\\Z', nameplate):", "    if not re.fullmatch(r'\\d+', nameplate):", desc="fullmatch without anchors"),
     Rewrite("regex-class-09", NP, "r'^\\d+\\Z'", "r'^[0-9]+\\Z'", desc="[0-9] instead of \\d"),
 ]
+MUTANTS.append(Mutant("empty-listing-keeps-old-nameplates", INP, "        self._all_nameplates = all_nameplates\n", "        if all_nameplates:\n            self._all_nameplates = all_nameplates\n", "C19.R7", "seed C19-17"))
